@@ -100,6 +100,45 @@ def multiLoop {α} (U : Rd α) : Nat → List U.σ → Nat → List U.σ × List
 def multiRd {α} (U : Rd α) (fuelOf : List U.σ → Nat) : Rd α :=
   ⟨List U.σ, fun q k => multiLoop U (fuelOf q) q k⟩
 
+/-! ## flatmapReader (slice.go:773-837)
+
+State: the upstream, the not yet consumed part of the input buffer (`in[begIn:endIn]`),
+the stashed rest of the last function result (`f.out`) and the upstream-EOF flag. -/
+structure FlatS (σ α β : Type) where
+  up : σ
+  inb : List α
+  outb : List β
+  eof : Bool
+
+/-- the inner loop (slice.go:816-828): consume buffered inputs one at a time while there is room;
+a result that does not fit is split and its rest stashed. Returns (input left, output so far, stash). -/
+def flatInner {α β} (g : α → List β) : List α → Nat → List β → List β → List α × List β × List β
+  | [], _, acc, outb => ([], acc, outb)
+  | x :: xs, room, acc, outb =>
+    if room = 0 then (x :: xs, acc, outb)
+    else if (g x).length ≤ room then flatInner g xs (room - (g x).length) (acc ++ g x) outb
+    else (xs, acc ++ (g x).take room, (g x).drop room)
+
+/-- the outer loop (slice.go:797-829); `k` is the destination size (also the size of the
+upstream read), `acc` the rows produced so far. -/
+def flatLoop {α β} (U : Rd α) (g : α → List β) :
+    Nat → Nat → U.σ → List α → List β → Bool → List β → FlatS U.σ α β × List β
+  | 0, _, s, inb, outb, eof, acc => (⟨s, inb, outb, eof⟩, acc)
+  | fuel+1, k, s, inb, outb, eof, acc =>
+    if k ≤ acc.length || (eof && inb.isEmpty) then (⟨s, inb, outb, eof⟩, acc)
+    else
+      let r := U.read s k
+      let s1 := if inb.isEmpty then r.1 else s
+      let inb1 := if inb.isEmpty then r.2.1 else inb
+      let eof1 := if inb.isEmpty then (r.2.2 == .eof) else eof
+      let i := flatInner g inb1 (k - acc.length) acc outb
+      flatLoop U g fuel k s1 i.1 i.2.2 eof1 i.2.1
+
+def flatRd {α β} (U : Rd α) (g : α → List β) (fuelOf : U.σ → Nat) : Rd β :=
+  ⟨FlatS U.σ α β, fun s k =>
+    let r := flatLoop U g (fuelOf s.up) k s.up s.inb (s.outb.drop k) s.eof (s.outb.take k)
+    (r.1, r.2, if r.1.eof && r.1.outb.isEmpty && r.1.inb.isEmpty then .eof else .more)⟩
+
 /-- `frameReader` (sliceio/reader.go:130-141): EOF together with the last rows. -/
 def frameRd (α : Type) : Rd α :=
   ⟨List α, fun rows k =>
